@@ -3,7 +3,7 @@
 // sectors) arbitrary.  Permissive open does not trust them - and must not
 // size an allocation by them either.  `Vec::with_capacity` is replaced by a
 // stub that asserts the requested capacity is bounded by the size of the file
-// (a capacity is only a hint, so the stub may return an empty vector): a
+// (within the bound the stub reserves what was asked for): a
 // reservation taken from an untrusted count field then fails the assertion,
 // whatever the allocator would have done with it.
 use super::env::*;
@@ -18,7 +18,10 @@ use crate::CompoundFile;
 pub fn bounded_with_capacity<T>(capacity: usize) -> Vec<T> {
     // the whole file is 6 sectors = 3072 bytes; nothing read from it needs more elements than it has bytes
     assert!(capacity <= 4 * SEC * 6, "C05: an allocation is sized by a number the file merely claims (memory not proportional to the input)");
-    Vec::new()
+    // std itself relies on the capacity it asked for (e.g. collect() writes the first element unchecked)
+    let mut v = Vec::new();
+    v.reserve_exact(capacity);
+    v
 }
 
 #[kani::proof]
